@@ -492,7 +492,11 @@ def m_from_bytes(interp, cls, data, byteorder="big", *, signed=False):
     data = SBytes.of(data)
     n = data.length()
     if not isinstance(n, int):
-        raise Unsupported("int.from_bytes of symbolic-length bytes")
+        # a short read delivered by the weak stream contract: case-split the (small) length exactly
+        if not interp.ctx.valid(z3.And(zint(n) >= 0, zint(n) <= 32)):
+            raise Unsupported("int.from_bytes of symbolic-length bytes")
+        n = concretise(interp, n, 0, 32)
+        data = SBytes([data.byte_at(i) for i in range(n)])
     items = data.items if data.all_bytes() else [data.byte_at(i) for i in range(n)]
     for it in items:
         if is_z3(it):
